@@ -167,7 +167,7 @@ def analyse(r, html, d, ext, case):
         for pos, at in kcalls:
             tgt = at['href'][1:]
             if idset.get(tgt, 0) != 1:
-                bad('%s-call-unresolved' % name, '%s call links to #%s but %d elements carry that id (entries: %s)' % (name, tgt, idset.get(tgt, 0), entries[:6]))
+                bad('%s-call-%s' % (name, 'unresolved' if idset.get(tgt, 0) == 0 else 'ambiguous'), '%s call links to #%s but %d elements carry that id (entries: %s)' % (name, tgt, idset.get(tgt, 0), entries[:6]))
                 break
         # 4. no duplicate ids
         for i in set(entries):
